@@ -75,6 +75,7 @@ Definition check_psbt (c : psbt_case) : bool :=
   | _, _ => false
   end.
 
-(** Script::is_witness_program *)
-Definition wp_case := (bytes * bool)%type.
-Definition check_wp (c : wp_case) : bool := Bool.eqb (is_witness_program (fst c)) (snd c).
+(** Script::is_witness_program and Script::is_p2sh: (script, is_witness_program, is_p2sh) *)
+Definition wp_case := (bytes * bool * bool)%type.
+Definition check_wp (c : wp_case) : bool :=
+  let '(s, w, h) := c in Bool.eqb (is_witness_program s) w && Bool.eqb (is_p2sh s) h.
